@@ -161,7 +161,23 @@ def gen_history(rng, length, readonly_safe=False, valkeys=None, funcs=3):
                  ["read", f, a], ["get", f, a], ["read", f, a]]
         at = rng.randrange(len(ops) + 1)
         ops[at:at] = block
+    # aimed block: a call is memoized twice with the same result (a second run that produced the same value): the memento
+    # looked up afterwards is the one handed over last
+    if rng.random() < 0.25:
+        f, a = rng.randrange(funcs), rng.randrange(NARGS)
+        v = rng.choice([x for x in vk if not x.startswith("part")])
+        block = [["memoize", f, a, v, None], ["get", f, a], ["memoize", f, a, v, None], ["get", f, a], ["read", f, a], ["get", f, a]]
+        at = rng.randrange(len(ops) + 1)
+        ops[at:at] = block
     return ops
+
+
+_SERIAL = {}
+
+
+def serial(op):
+    """A number of its own for every op object of the process (the same object is shown to the model and to every backend)."""
+    return _SERIAL.setdefault(id(op), len(_SERIAL) + 1)
 
 
 class Model:
@@ -182,14 +198,14 @@ class Model:
             # accepted, raising is not)
             undecided = set(old.get("undecided", ())) | set(old.get("withdata", ())) if old else set()
             self.d[(f, a)] = {"v": vk, "meta": dict(old["meta"]) if old else {}, "ovr": ovr, "withdata": set(),
-                              "undecided": undecided}
+                              "undecided": undecided, "cid": "cid_%d" % serial(op)}
             return None
         if k in ("read", "readheld"):
             e = self.d.get((op[1], op[2]))
             return ("value", e["v"]) if e else "absent"
         if k == "get":
             e = self.d.get((op[1], op[2]))
-            return ("present", e["v"]) if e else "absent"
+            return ("present", e["v"], e.get("cid")) if e else "absent"
         if k == "ismem":
             return (op[1], op[2]) in self.d
         if k == "getmany":
@@ -285,6 +301,7 @@ def apply_backend(backend, refs, vals, op, model_before=None):
                 v = _partition({"b": 3, "c": [4]})
                 v._merge_parent = parent
             m = refs.memento(f, a, v)
+            m.correlation_id = "cid_%d" % serial(op)  # (every memoization hands over a memento of its own)
             backend.memoize(ovr, m, v)
             if not getattr(backend, "read_only", False):  # (a read-only backend skips the write: nothing to read through m)
                 if (id(backend), f, a) in refs.held:
@@ -311,7 +328,7 @@ def apply_backend(backend, refs, vals, op, model_before=None):
             if op[0] == "get":
                 return ("present", m.invocation_metadata.result_type.name,
                         m.invocation_metadata.fn_reference_with_args.fn_reference.qualified_name,
-                        m.invocation_metadata.fn_reference_with_args.arg_hash)
+                        m.invocation_metadata.fn_reference_with_args.arg_hash, m.correlation_id)
             v = backend.read_result(m)
             refs.kept.append(v)
             return ("value", v)
@@ -378,7 +395,9 @@ def answers_agree(op, expected, got, refs, vals):
         if expected == "absent" or got == "absent":
             return expected == got
         return (got[1] == ResultType.from_object(val(vals, expected[1])).name
-                and got[2] == refs.qn[op[1]] and got[3] == refs.ah[op[1]][op[2]])
+                and got[2] == refs.qn[op[1]] and got[3] == refs.ah[op[1]][op[2]]
+                # ... and it is the memento handed over by the last memoization of the call
+                and (len(expected) < 3 or expected[2] is None or len(got) < 5 or got[4] == expected[2]))
     if k == "getmany":
         want = [None if e is None else [refs.qn[e[0]], refs.ah[e[0]][e[1]]] for e in expected]
         return got == want
